@@ -12,8 +12,9 @@ nobody is registered**; `Broadcast` moves all of them.  As in the code, `Signal`
 issued *after* the internal mutex has been released, as separate steps (`ruS`, `ulS`, `ulB`).
 
 A thread is a program counter, what it holds (`rd` read holds, `wr` the write lock) and the rest of its
-script.  The panics of `RUnlock`/`Unlock` happen with the internal mutex held and without `defer`,
-exactly as in the code: the panicking thread ends in `dead` and `m` stays locked.
+script.  `RUnlock`/`Unlock` test their guards with the internal mutex held and — since the repair "release the
+internal mutex before panicking" — unlock it before they panic: the panicking thread ends in `dead`, `m` is free again
+and nothing else has changed.
 
 `mxStep` is the code **after** the repair of `Unlock` (it panics when no writer is active);
 `mxStepOld` is the code before the repair, kept for the witness.
@@ -65,7 +66,7 @@ def broadcastR (s : Mx) : Mx := { s with wakeR := s.wakeR + s.waitR, waitR := 0 
 
 /-- The `Unlock` critical section; `fixed = false` is the code before the repair (no writer check). -/
 def ulCStep (fixed : Bool) (s : Mx) (v : V) : List (Mx × V) :=
-  if s.readers > 0 ∨ (fixed = true ∧ s.writer = false) then [(s, { v with pc := .dead })]
+  if s.readers > 0 ∨ (fixed = true ∧ s.writer = false) then [({ s with m := false }, { v with pc := .dead })]
   else if s.pending = 0 then [({ s with m := false, writer := false }, { v with pc := .ulB, wr := false })]
   else [({ s with m := false, writer := false }, { v with pc := .ulS, wr := false })]
 
@@ -89,16 +90,16 @@ def mxStepG (fixed : Bool) (s : Mx) (v : V) : List (Mx × V) :=
     else [({ s with m := false, pending := s.pending - 1, writer := true }, { v with pc := .idle, wr := true })]
   | .lkP => if s.wakeW = 0 then [] else [({ s with wakeW := s.wakeW - 1 }, { v with pc := .lkR })]
   | .lkR => if s.m then [] else [({ s with m := true }, { v with pc := .lkC })]
-  -- RUnlock: mutex.Lock(); panics; readersActive--; if readersActive == 0 && pendingWriters > 0
+  -- RUnlock: mutex.Lock(); guards: mutex.Unlock() + panic; readersActive--; if readersActive == 0 && pendingWriters > 0
   --          { mutex.Unlock(); writerCond.Signal() } else mutex.Unlock()
   | .ruA => if s.m then [] else [({ s with m := true }, { v with pc := .ruC })]
   | .ruC =>
-    if s.readers = 0 ∨ s.writer then [(s, { v with pc := .dead })]
+    if s.readers = 0 ∨ s.writer then [({ s with m := false }, { v with pc := .dead })]
     else if s.readers = 1 ∧ s.pending > 0 then
       [({ s with m := false, readers := s.readers - 1 }, { v with pc := .ruS, rd := v.rd - 1 })]
     else [({ s with m := false, readers := s.readers - 1 }, { v with pc := .idle, rd := v.rd - 1 })]
   | .ruS => [(signalW s, { v with pc := .idle })]
-  -- Unlock: mutex.Lock(); panics; writerActive = false; if pendingWriters == 0 { mutex.Unlock();
+  -- Unlock: mutex.Lock(); guards: mutex.Unlock() + panic; writerActive = false; if pendingWriters == 0 { mutex.Unlock();
   --         readerCond.Broadcast() } else { mutex.Unlock(); writerCond.Signal() }
   | .ulA => if s.m then [] else [({ s with m := true }, { v with pc := .ulC })]
   | .ulC => ulCStep fixed s v
